@@ -802,7 +802,9 @@ class HttpProxyPlugin(HttpProtocolHandlerPlugin):
                 else ssl.VerifyMode.CERT_REQUIRED
             )
             self.upstream.wrap(
-                text_(self.request.host),
+                # IPv6 literals come bracketed in the request target,
+                # certificates name the bare address
+                text_(self.request.host).strip('[]'),
                 self.flags.ca_file,
                 as_non_blocking=True,
                 verify_mode=verify_mode,
